@@ -52,8 +52,10 @@ def ast(relpath, filt, extra=()):
         rc, out, err, w = run(cmd, timeout=600, mem_gb=32)
         if rc != 0 or not out.strip():
             raise Undecided('front end: clang failed on %s (%s): %s' % (relpath, filt, (err or '')[-800:]))
-        open(cache + '.tmp', 'w').write(out)
-        os.replace(cache + '.tmp', cache)
+        tmp = '%s.%d.tmp' % (cache, os.getpid())
+        with open(tmp, 'w') as f:
+            f.write(out)
+        os.replace(tmp, cache)
     return load_docs(open(cache).read())
 
 
@@ -69,12 +71,27 @@ def has_body(d):
 
 
 def functions(docs, kinds=('CXXMethodDecl', 'FunctionDecl', 'CXXConstructorDecl')):
-    """name -> list of declarations with bodies (all overloads / instantiations), in dump order"""
+    """name -> list of declarations with bodies (all overloads / instantiations), in dump order.
+    Uninstantiated template patterns are skipped: only instantiated specialisations are executable."""
     out = {}
+    def visit(n, skip_pattern=False):
+        k = n.get('kind')
+        if k in kinds and has_body(n) and not skip_pattern:
+            out.setdefault(n['name'], []).append(n)
+        first = True
+        for c in n.get('inner', []) or []:
+            if not isinstance(c, dict):
+                continue
+            pat = False
+            if k == 'FunctionTemplateDecl' and c.get('kind') in kinds and first:
+                pat, first = True, False
+            if k == 'ClassTemplateDecl' and c.get('kind') == 'CXXRecordDecl':
+                continue        # the class template pattern; specialisations follow as ClassTemplateSpecializationDecl
+            if pat:
+                continue
+            visit(c)
     for d in docs:
-        for n in walk(d):
-            if n.get('kind') in kinds and has_body(n):
-                out.setdefault(n['name'], []).append(n)
+        visit(d)
     return out
 
 
@@ -1392,8 +1409,15 @@ class Exec:
             if name in ('setZero',):
                 obj.assign(Mx(obj.r, obj.c))
                 return obj
-            if name == 'resize' or name == 'conservativeResize':
-                raise Unsupported('resize of matrix')
+            if name == 'resize':
+                if obj.base is not None:
+                    raise Unsupported('resize of a view')
+                dims = [_i(a) for a in args]
+                obj.r, obj.c = (dims[0], 1 if obj.c <= 1 else obj.c) if len(dims) == 1 else (dims[0], dims[1])
+                obj.d = [[D(fresh('uninit')) for _ in range(obj.c)] for _ in range(obj.r)]   # Eigen leaves resized storage uninitialised
+                return None
+            if name == 'conservativeResize':
+                raise Unsupported('conservativeResize')
             if hasattr(obj, name):
                 return getattr(obj, name)(*args)
             raise Unsupported('Eigen member %s' % name)
